@@ -12,13 +12,16 @@ Notation vid := nat (only parsing).   (* internal Var *)
 Notation oid := nat (only parsing).   (* InternalObserver *)
 
 (* ---------------------------------------------------------------- values *)
-Inductive val := VInt (z : Z) | VPair (a b : val) | VUnit.
+(* [VMap]: a key-sorted association list with integer values (the inputs and outputs of the per-key
+   operators of incremental-map) *)
+Inductive val := VInt (z : Z) | VPair (a b : val) | VUnit | VMap (m : list (Z * Z)).
 
 Fixpoint val_eqb (a b : val) : bool :=
   match a, b with
   | VInt x, VInt y => bool_decide (x = y)
   | VPair a1 a2, VPair b1 b2 => val_eqb a1 b1 && val_eqb a2 b2
   | VUnit, VUnit => true
+  | VMap m1, VMap m2 => bool_decide (m1 = m2)
   | _, _ => false
   end.
 
@@ -40,6 +43,7 @@ Definition fn_sem (fid : Z) (cap : Z) (args : list val) : val :=
   else if bool_decide (fid = 6) then VInt cap                                 (* ignores its inputs *)
   else if bool_decide (fid = 7) then VPair (default VUnit (args !! 0%nat)) (default VUnit (args !! 1%nat))
   else if bool_decide (fid = 8) then VInt (100 * cap + a)
+  else if bool_decide (fid = 10) then VUnit                                   (* a closure returning () *)
   else VInt (a `div` 2).
 
 (* fold functions: acc, x -> acc *)
@@ -89,6 +93,7 @@ Inductive effect :=
   | ERemoveDep (e : nat) (slot : nat)                         (* e.remove_dependency(slot.take()) *)
   | ESwapDep (e : nat) (slot : nat) (hs : list nat) (cb : bool)
       (* the join/bind idiom: new := e.add_dependency(hs[arg mod n]); if let Some(prev) = slot.take() { e.remove_dependency(prev) }; slot := new *)
+  | EPerKeyStep (pk : nat)           (* the map_cyclic closure of a per-key operator (incremental-map) *)
   | EMakeStale (e : nat)
   | EInvalidateExpert (e : nat)
   | EStabilise                        (* nested stabilise: misuse *)
@@ -192,18 +197,39 @@ Global Instance eta_bind : Settable _ := settable! Bind
 
 (* kind/expert.rs: an edge (child, optional on_change callback, its index among the children); the
    callback of the harness remembers the last value it was given ([ed_seen]) *)
-Record edge := Edge { ed_child : nid; ed_cb : bool; ed_index : option Z; ed_seen : option val }.
+(* the change callback of an edge: none, the harness's (logs and remembers the value), or the one a
+   per-key operator installs (writes the key's output into the operator's accumulator) *)
+Inductive cbk := CbNone | CbLog | CbPerKey (pk : nat) (key : Z).
+Record edge := Edge { ed_child : nid; ed_cb : cbk; ed_index : option Z; ed_seen : option val }.
 Global Instance eta_edge : Settable _ := settable! Edge <ed_child; ed_cb; ed_index; ed_seen>.
 (* ExpertNode; [ex_mode]: what the recompute function of the harness returns (0: the sum of the values its
-   callbacks were last given, 1: the sum of the dependencies' current values) *)
+   callbacks were last given, 1: the sum of the dependencies' current values); the nodes a per-key
+   operator builds are library code (2: the operator's result = its accumulator, 3: the reader of one
+   key of the previous input), identified by [ex_pk] and [ex_key] *)
 Record expert := Expert {
   ex_mode : Z;
   ex_children : list nat;         (* Vec<PackedEdge>, as indices into [edges] *)
   ex_force_stale : bool;
   ex_num_invalid : Z;
   ex_fire_all : bool;             (* will_fire_all_callbacks *)
+  ex_pk : nat;
+  ex_key : Z;
 }.
-Global Instance eta_expert : Settable _ := settable! Expert <ex_mode; ex_children; ex_force_stale; ex_num_invalid; ex_fire_all>.
+Global Instance eta_expert : Settable _ := settable! Expert <ex_mode; ex_children; ex_force_stale; ex_num_invalid; ex_fire_all; ex_pk; ex_key>.
+
+(* incr_filter_mapi_generic (incremental-map btree_map.rs:138, im_rc.rs:463): what the closures of one
+   per-key operator share.  The user's per-key function is a template whose input node is [l1.0] and
+   whose captured value is the key. *)
+Record perkey := PerKey {
+  pk_result : nid;                        (* the expert node returned to the user *)
+  pk_lhs_change : nid;                    (* the map_cyclic node *)
+  pk_prev : list (Z * Z);                 (* prev_map *)
+  pk_acc : list (Z * Z);                  (* acc *)
+  pk_nodes : list (Z * (nid * nat));      (* prev_nodes: key -> (weak per-key node, dependency) *)
+  pk_fn : bindfn;
+  pk_cutoff : option cutoff;
+}.
+Global Instance eta_perkey : Settable _ := settable! PerKey <pk_result; pk_lhs_change; pk_prev; pk_acc; pk_nodes; pk_fn; pk_cutoff>.
 
 Record var := Var {
   v_value : val;
@@ -281,7 +307,8 @@ Inductive event :=
   | EvMemoFn (m : nat) (key : Z)                            (* the underlying function of a memoised fn ran *)
   | EvEdgeCb (n : nid) (e : nat) (v : val)                  (* on_change callback of edge e of expert node n *)
   | EvExpertRun (n : nid) (v : val)                         (* recompute function of an expert node *)
-  | EvObsChange (n : nid) (b : bool).                       (* on_observability_change of an expert node *)
+  | EvObsChange (n : nid) (b : bool)                        (* on_observability_change of an expert node *)
+  | EvPerKeyFn (pk : nat) (key : Z).                        (* the user's per-key function ran *)
 
 Record state := State {
   nodes : list node;
@@ -322,6 +349,7 @@ Record state := State {
   experts : list expert;
   edges : list edge;
   dep_slots : list (option nat);  (* the program's cells holding a Dependency (an edge) *)
+  perkeys : list perkey;
   cur_running : option nid;       (* only_in_debug.currently_running_node *)
   inv_count : nat;                (* user-function invocations so far *)
   crash_at : option nat;          (* inject a panic at this invocation *)
@@ -331,7 +359,7 @@ Global Instance eta_state : Settable _ := settable! State
    ahh_max_seen; st_status; stab_num; prop_inv; has_stack; run_ouh; new_obs; all_obs;
    disallowed_obs; cur_scope; set_during; dead_vars; num_var_sets; num_recomputed; num_created;
    num_changed; num_became_necessary; num_became_unnecessary; num_invalidated;
-   num_active_observers; debug; events; handles; exports; memos; experts; edges; dep_slots; cur_running;
+   num_active_observers; debug; events; handles; exports; memos; experts; edges; dep_slots; perkeys; cur_running;
    inv_count; crash_at>.
 
 (* ---------------------------------------------------------------- monad *)
@@ -423,6 +451,10 @@ Definition get_edge (e : nat) : M edge :=
   s <- get ;; match edges s !! e with Some v => ret v | None => panic (PModelGap 6) end.
 Definition upd_edge (e : nat) (f : edge -> edge) : M unit :=
   modify (fun s => s <| edges := alter f e (edges s) |>).
+Definition get_perkey (x : nat) : M perkey :=
+  s <- get ;; match perkeys s !! x with Some v => ret v | None => panic (PModelGap 7) end.
+Definition upd_perkey (x : nat) (f : perkey -> perkey) : M unit :=
+  modify (fun s => s <| perkeys := alter f x (perkeys s) |>).
 Definition get_obs (o : oid) : M obs :=
   s <- get ;; match obss s !! o with Some v => ret v | None => panic (PModelGap 4) end.
 Definition upd_obs (o : oid) (f : obs -> obs) : M unit :=
